@@ -56,6 +56,11 @@ func newDisjunctionSearcher(indexReader search.Reader,
 		rv, err := optimizeCompositeSearcher("disjunction:unadorned",
 			indexReader, qsearchers, options)
 		if err != nil || rv != nil {
+			if rv != nil && min > 0 {
+				// the optimized searcher is a TermSearcher whose Min() is 0;
+				// keep the requested minimum visible to BooleanSearcher
+				rv = &minSearcher{Searcher: rv, min: min}
+			}
 			return rv, err
 		}
 	}
@@ -66,6 +71,16 @@ func newDisjunctionSearcher(indexReader search.Reader,
 	}
 	return newDisjunctionSliceSearcher(qsearchers, min, scorer, options,
 		limit)
+}
+
+// minSearcher reports the min of the disjunction it replaces.
+type minSearcher struct {
+	search.Searcher
+	min int
+}
+
+func (m *minSearcher) Min() int {
+	return m.min
 }
 
 const optionScoringNone = "none"
